@@ -347,3 +347,192 @@ Qed.
 
 Corollary build_sorted_days l : build_sorted l = b_days (builder_of (map snd (canon l))).
 Proof. rewrite <- build_sorted_canonical. reflexivity. Qed.
+
+(* ---------------------------------------------------------------- 5. arrival order *)
+
+(* the journal depends only on, for each source position, the directives made from it in
+   their order (these are made and added together: the parts of one accrual) *)
+Theorem arrival_classes l1 l2 :
+  (forall k, filter (has_src k) l1 = filter (has_src k) l2) -> build_sorted_b l1 = build_sorted_b l2.
+Proof.
+  intros H. rewrite !build_sorted_canonical. unfold canon.
+  rewrite (sort_by_classes by_src by_src_irrefl by_src_trans by_src_cotrans l1 l2); [reflexivity|].
+  intros a. rewrite !filter_eqv_has_src. apply H.
+Qed.
+
+(* any permutation, when directives with the same source position are equal *)
+Theorem arrival_perm l1 l2 :
+  Permutation l1 l2 ->
+  (forall x y, In x l1 -> In y l1 -> fst x = fst y -> x = y) ->
+  build_sorted_b l1 = build_sorted_b l2.
+Proof.
+  intros P Hinj. rewrite !build_sorted_canonical. unfold canon.
+  rewrite (sort_by_perm_inj by_src by_src_irrefl by_src_trans by_src_cotrans l1 l2 P); [reflexivity|].
+  intros x y Hx Hy E. apply Hinj; try assumption. apply eqv_by_src. exact E.
+Qed.
+
+Lemma filter_concat {A} (p : A -> bool) (ls : list (list A)) :
+  filter p (concat ls) = concat (map (filter p) ls).
+Proof.
+  induction ls as [|l ls IH]; [reflexivity|]. cbn. rewrite filter_app, IH. reflexivity.
+Qed.
+
+Lemma concat_perm_blocks {A} (m1 m2 : list (list A)) :
+  Permutation m1 m2 ->
+  (forall x y, In x m1 -> In y m1 -> x = [] \/ y = [] \/ x = y) ->
+  concat m1 = concat m2.
+Proof.
+  intros P. induction P as [|x l l' P IH|x y l|l l' l'' P1 IH1 P2 IH2]; intros H.
+  - reflexivity.
+  - cbn. f_equal. apply IH. intros a b Ha Hb. apply H; right; assumption.
+  - cbn. rewrite !app_assoc. f_equal.
+    destruct (H x y) as [E|[E|E]]; [right; left; reflexivity|left; reflexivity| | |]; subst;
+      rewrite ?app_nil_r; reflexivity.
+  - rewrite IH1 by exact H. apply IH2. intros a b Ha Hb.
+    apply H; eapply Permutation_in; try (apply Permutation_sym; exact P1); assumption.
+Qed.
+
+(* the files' batches in any order.  Batches with a common path are batches of the same file
+   (a file included twice is parsed twice, with the same result). *)
+Theorem arrival_files (fs1 fs2 : list (list (src * directive))) :
+  Permutation fs1 fs2 ->
+  (forall f g x y, In f fs1 -> In g fs1 -> In x f -> In y g -> s_path (fst x) = s_path (fst y) -> f = g) ->
+  build_sorted_b (concat fs1) = build_sorted_b (concat fs2).
+Proof.
+  intros P Hfile. apply arrival_classes. intros k. rewrite !filter_concat.
+  apply concat_perm_blocks; [apply Permutation_map; exact P|].
+  intros x y Hx Hy. apply in_map_iff in Hx, Hy.
+  destruct Hx as [f [Ef Hf]], Hy as [g [Eg Hg]].
+  destruct x as [|a x']; [left; reflexivity|]. destruct y as [|b y']; [right; left; reflexivity|].
+  right. right. rewrite <- Ef, <- Eg.
+  assert (Ha : In a (filter (has_src k) f)) by (rewrite Ef; left; reflexivity).
+  assert (Hb : In b (filter (has_src k) g)) by (rewrite Eg; left; reflexivity).
+  apply filter_In in Ha, Hb. destruct Ha as [Ha Ka], Hb as [Hb Kb].
+  apply has_src_spec in Ka, Kb.
+  rewrite (Hfile f g a b Hf Hg Ha Hb); [reflexivity|]. rewrite Ka, Kb. reflexivity.
+Qed.
+
+(* a sequence that is already in source order (one file: its directives in textual order)
+   is built as Model/Journal.v builds it *)
+Theorem build_sorted_in_order l : sorted by_src l -> build_sorted_b l = builder_of (map snd l).
+Proof.
+  intros Hs. rewrite build_sorted_canonical. unfold canon.
+  rewrite (sort_by_sorted_id by_src by_src_irrefl by_src_trans by_src_cotrans l Hs). reflexivity.
+Qed.
+
+Lemma file_directives_sorted path ods :
+  StronglySorted Z.le (map fst ods) -> sorted by_src (file_directives path ods).
+Proof.
+  unfold sorted, file_directives. induction ods as [|[o d] ods IH]; intros Hs; cbn [map]; [constructor|].
+  cbn [map fst] in Hs. inversion Hs as [|? ? Hs' Hall]; subst. constructor; [apply IH; exact Hs'|].
+  rewrite Forall_forall in *. intros [s' d'] Hin. apply in_map_iff in Hin.
+  destruct Hin as [[o' d''] [E Hin]]. inversion E; subst.
+  unfold by_src, src_ltb. cbn [fst snd s_path s_start]. rewrite str_eqb_refl.
+  apply Z.ltb_ge. apply Hall. apply in_map_iff. exists (o', d'). split; [reflexivity|exact Hin].
+Qed.
+
+Lemma map_snd_file_directives path ods : map snd (file_directives path ods) = map snd ods.
+Proof. unfold file_directives. rewrite map_map. reflexivity. Qed.
+
+(* one file, offsets not decreasing (the parts of an accrual share an offset) *)
+Theorem single_file_textual_order path ods :
+  StronglySorted Z.le (map fst ods) ->
+  build_sorted_b (file_directives path ods) = builder_of (map snd ods).
+Proof.
+  intros Hs. rewrite build_sorted_in_order by (apply file_directives_sorted; exact Hs).
+  rewrite map_snd_file_directives. reflexivity.
+Qed.
+
+(* Builder.Days (the touch of period boundaries) before Build = after Build *)
+Lemma upd_day_map (e : tday -> day) days dt f tf :
+  (forall x, d_date (e x) = td_date x) ->
+  (forall d, e (tempty_day d) = empty_day d) ->
+  (forall x, f (e x) = e (tf x)) ->
+  upd_day (map e days) dt f = map e (tupd_day days dt tf).
+Proof.
+  intros Hd He Hf. induction days as [|x days IH]; cbn [map upd_day tupd_day].
+  - rewrite <- He, Hf. reflexivity.
+  - rewrite Hd.
+    destruct (dt =? td_date x); [cbn [map]; rewrite Hf; reflexivity|].
+    destruct (dt <? td_date x).
+    + rewrite <- He. cbn [map]. rewrite Hf. reflexivity.
+    + cbn [map]. rewrite IH. reflexivity.
+Qed.
+
+Theorem touch_then_build b ds : tbuild (tbuilder_touch b ds) = builder_touch (tbuild b) ds.
+Proof.
+  unfold tbuild, tbuilder_touch, builder_touch. cbn [tb_days tb_min tb_max b_days b_min b_max]. f_equal.
+  generalize (tb_days b). induction ds as [|d ds IH]; intros days; [reflexivity|].
+  cbn [fold_left]. rewrite IH. f_equal. symmetry. apply upd_day_map; reflexivity.
+Qed.
+
+(* ---------------------------------------------------------------- 6. the commands *)
+
+Lemma balance_table_factor cfg ds :
+  balance_table cfg ds =
+  cbind (match bc_valuation cfg with
+         | Some v => if valid_commodity v then COk tt else CErr k_valuation v
+         | None => COk tt end) (fun _ => cbind (load ds) (balance_table_of cfg)).
+Proof.
+  unfold balance_table, balance_report, balance_table_of, balance_report_of.
+  destruct (match bc_valuation cfg with Some v => if valid_commodity v then COk tt else CErr k_valuation v | None => COk tt end);
+    cbn [cbind]; try reflexivity.
+  destruct (load ds); reflexivity.
+Qed.
+
+Lemma check_factor repaired ds : check_cmd_current repaired ds = cbind (load ds) (check_of repaired).
+Proof. reflexivity. Qed.
+
+Lemma print_factor lenient ds : print_cmd lenient ds = cbind (load ds) (print_of lenient).
+Proof. reflexivity. Qed.
+
+Lemma transcode_factor lenient v ds :
+  transcode_cmd lenient v ds =
+  cbind (valuation_flag v) (fun vo =>
+  match vo with
+  | Some c => cbind (load ds) (transcode_of lenient c)
+  | None => CErr k_valuation []
+  end).
+Proof.
+  unfold transcode_cmd, transcode_of, transcode_days.
+  destruct (valuation_flag v) as [[c|]| |]; cbn [cbind]; try reflexivity.
+  destruct (load ds); reflexivity.
+Qed.
+
+Lemma weights_factor cfg ds :
+  weights_csv_cmd cfg ds =
+  cbind (match pc_universe cfg with Some y => universe_load [] y | None => COk [] end) (fun u =>
+  cbind (check_valuation cfg) (fun _ => cbind (load ds) (weights_csv_of cfg u))).
+Proof.
+  unfold weights_csv_cmd, weights_table, weights_entries, weights_csv_of, weights_entries_of.
+  destruct (match pc_universe cfg with Some y => universe_load [] y | None => COk [] end); cbn [cbind]; try reflexivity.
+  destruct (check_valuation cfg); cbn [cbind]; try reflexivity.
+  destruct (load ds) as [b| |]; cbn [cbind]; try reflexivity.
+  destruct (pf_partition cfg b); cbn [cbind]; try reflexivity.
+  destruct (valued_days cfg _); cbn [cbind]; try reflexivity.
+  destruct (day_values cfg _); cbn [cbind]; try reflexivity.
+  destruct (query_entries _ _ _ _); reflexivity.
+Qed.
+
+Lemma returns_factor fx cfg ds :
+  returns_cmd fx cfg ds = cbind (check_valuation cfg) (fun _ => cbind (load ds) (returns_of fx cfg)).
+Proof.
+  unfold returns_cmd, returns_gen, returns_of.
+  destruct (check_valuation cfg); cbn [cbind]; try reflexivity.
+  destruct (load ds) as [b| |]; cbn [cbind]; try reflexivity.
+  destruct (pf_partition cfg b); cbn [cbind]; try reflexivity.
+  destruct (valued_days cfg _); cbn [cbind]; try reflexivity.
+  destruct (day_values cfg _); cbn [cbind]; try reflexivity.
+  destruct (day_flows fx cfg _); reflexivity.
+Qed.
+
+(* every command that reads the built journal *)
+Theorem run_sorted_arrival {R} (cmd : builder -> R) l1 l2 :
+  build_sorted_b l1 = build_sorted_b l2 -> run_sorted cmd l1 = run_sorted cmd l2.
+Proof. unfold run_sorted. intros ->. reflexivity. Qed.
+
+(* the command on the arrival sequence = the command of Model/Cli.v on the journal loaded in
+   source order *)
+Theorem run_sorted_canonical {R} (cmd : builder -> R) l :
+  run_sorted cmd l = cmd (builder_of (map snd (canon l))).
+Proof. unfold run_sorted. rewrite build_sorted_canonical. reflexivity. Qed.
